@@ -243,6 +243,18 @@ func (state *State) ClearBlockRequestsAfter(ctx context.Context, hash bitcoin.Ha
 
 	logger.Info(ctx, "Clearing block requests after : %s", hash)
 
+	// The fork point can be the block that is being processed. It is in neither list any more
+	// and every outstanding request is after it.
+	if state.processingBlock != nil && state.processingBlock.Equal(&hash) {
+		logger.Info(ctx, "Removing %d requested blocks", len(state.blocksRequested))
+		for _, removed := range state.blocksRequested {
+			state.pendingBlockSize -= removed.size // discard buffered bodies
+		}
+		state.blocksRequested = nil
+		state.blocksToRequest = nil
+		return
+	}
+
 	for i, requested := range state.blocksRequested {
 		if requested.hash.Equal(&hash) {
 			if len(state.blocksRequested) > i {
